@@ -33,7 +33,8 @@ pub fn big_gcd<const N: usize>(n: &BUint<N>, p: &BUint<N>) -> BUint<N> {
 pub fn inv_mod<const N: usize>(n: &BUint<N>, p: &BUint<N>) -> Result<BUint<N>, BUint<N>> {
     assert!(!p.is_zero());
     if n.is_zero() {
-        return Err(*p);
+        // gcd(0, p) = p: zero is invertible only modulo 1.
+        return if p.is_one() { Ok(BUint::ZERO) } else { Err(*p) };
     }
     let (d, u, _) = gcd_internal::<N, true>(n, p);
     if d != BUint::ONE {
